@@ -19,7 +19,7 @@ static RECORDS: Mutex<Vec<PanicRecord>> = Mutex::new(Vec::new());
 
 pub fn install() {
     std::panic::set_hook(Box::new(|info| {
-        if info.payload().downcast_ref::<CrashPayload>().is_some() {
+        if info.payload().downcast_ref::<CrashPayload>().is_some() || info.payload().downcast_ref::<crate::sched::SchedAbort>().is_some() {
             return;
         }
         let message = if let Some(s) = info.payload().downcast_ref::<&str>() {
